@@ -159,3 +159,16 @@ impl<'a> Key<'a> {
 #[verifier::external_body]
 pub fn vf_prefix(v: &Vec<u8>, n: usize) -> (r: &[u8]) requires n <= v@.len() ensures r@ == v@.subrange(0, n as int) { unimplemented!() }
 // ===== end =====
+// ===== TRUSTED SHIM (unit cell_provider, part 2): header lookups behind HeaderProvider / HeaderFieldsProvider =====
+pub struct HeaderFields { pub hash: Byte32, pub number: u64, pub epoch: EpochNumberWithFraction, pub timestamp: u64, pub parent_hash: Byte32 }   // ckb_traits::HeaderFields
+impl Storage {
+    pub uninterp spec fn s_header_by_hash(&self, h: Seq<u8>) -> Option<HeaderView>;     // stored headers (indexed blocks, fetched headers)
+    #[verifier::external_body]
+    pub fn get_header(&self, hash: &Byte32) -> (r: Option<HeaderView>) ensures r == self.s_header_by_hash(hash@) { unimplemented!() }
+}
+impl Peers {
+    pub uninterp spec fn s_proved_header(&self, h: Seq<u8>) -> Option<HeaderView>;      // last-N headers of the peers' prove states
+    #[verifier::external_body]
+    pub fn find_header_in_proved_state(&self, hash: &Byte32) -> (r: Option<HeaderView>) ensures r == self.s_proved_header(hash@) { unimplemented!() }
+}
+// ===== end =====
